@@ -290,3 +290,28 @@ PROPS["C14"] = {
         ],
     },
 }
+
+PROPS["C08"] = {
+    "pkg": "c08", "level": "exploration",
+    "technique": "model-based property testing (rapid) over generated key life-cycle histories (refresh, serialize+restore, sign, sign with one stale signer, "
+                 "reconstruct from shares of chosen epochs) on CMP, FROST, FROST-Taproot and Doerner clusters; the model keeps every epoch's shares and the original key; "
+                 "oracle after every step: key unchanged, C02 consistency, shares changed, mixed-epoch reconstructions fail / same-epoch succeed (math/big), signatures valid "
+                 "under the original key, stale-signer sessions yield no signature anywhere",
+    "level_text": "Histories of up to 7 operations (CMP: 3-5) with up to 3 refreshes are generated and shrunk as one value; each refresh is a real protocol run under a generated "
+                  "schedule. The reconstruction oracle and the signature verifier are independent references.",
+    "level_note": "With threshold 0 every share equals the key, so 'shares changed' and 'stale signer' are necessarily vacuous there and are skipped. Doerner material cannot be "
+                  "restored from bytes (C15 finding), so 'restore' is skipped for Doerner. CMP volumes small.",
+    "rule": "case = (scheme, source, n, t, executed history shape over R=refresh S=restore G=sign X=stale-sign C=same-epoch reconstruct M=mixed-epoch reconstruct); non-trivial iff a "
+            "refresh is followed by a mixed-epoch action, a stale sign or a restore; distinct = distinct class keys",
+    "assumptions": ["CMP refresh uses injected safe primes (hook H1)"],
+    "tiers": {
+        "quick": [
+            {"run": "^TestCheap$", "checks": 1500, "shards": 10},
+            {"run": "^TestCMP$", "checks": 6, "shards": 6, "timeout": 1500},
+        ],
+        "thorough": [
+            {"run": "^TestCheap$", "checks": 50000, "shards": 10},
+            {"run": "^TestCMP$", "checks": 150, "shards": 6, "timeout": 9000},
+        ],
+    },
+}
